@@ -1,9 +1,9 @@
 package main
 
 import (
-	"encoding/json"
 	"crypto/sha1"
 	"crypto/sha256"
+	"encoding/json"
 	"fmt"
 	"go/types"
 	"sort"
@@ -196,7 +196,9 @@ func init() {
 		}
 		return m.containsPieces(a[0], a[1].(string))
 	})
-	R("strings.Repeat", func(m *Machine, a []Value) Value { return strings.Repeat(a[0].(string), int(m.concInt(a[1], "Repeat"))) })
+	R("strings.Repeat", func(m *Machine, a []Value) Value {
+		return strings.Repeat(a[0].(string), int(m.concInt(a[1], "Repeat")))
+	})
 	R("strings.TrimSpace", func(m *Machine, a []Value) Value { return strings.TrimSpace(strArg(m, a[0], "TrimSpace")) })
 	R("strings.HasPrefix", func(m *Machine, a []Value) Value {
 		if s, ok := a[0].(string); ok {
